@@ -341,7 +341,7 @@ def oracle(case, result):
                 return None         # some type could not be determined from the rows
             return (f'create:raises:{result.name}', repr(rows))
         out = [dec_val(r) for r in result[1]]
-        if len(out) != len(rows) or not all(same(a, b) and a == b for a, b in zip(out, rows)):
+        if len(out) != len(rows) or not all(same(a, b) for a, b in zip(out, rows)):
             return ('create:collect-differs', f'{rows!r} came back as {out!r}')
         return None
     if kind == 'create_s':
@@ -354,7 +354,7 @@ def oracle(case, result):
             names = tuple(f[0] for f in case[1][1])
             for a, b in zip(out, rows):
                 if isinstance(b, T.Row):
-                    ok = same(a, b) and a == b
+                    ok = same(a, b)
                 else:
                     ok = isinstance(b, tuple) and tuple(a.__fields__) == names and same(tuple(a), b)
                 if not ok:
@@ -377,7 +377,7 @@ def oracle(case, result):
                 back = pickle.loads(pickle.dumps(r, proto))
             except Exception as e:  # pylint: disable=broad-except
                 return (f'row:pickle-raises:{type(e).__name__}', repr(r))
-            if not same(back, r) or back != r:
+            if not same(back, r):
                 return ('row:pickle-differs', f'{r!r} came back as {back!r}')
         d = r.asDict()
         names = list(r.__fields__)
@@ -821,6 +821,17 @@ def corruptions(rng, t, v, nullable, respect=True):
     return out
 
 
+def null_first(t, v):
+    """The value with a None put in front of every list (the element type is then determined by a later element)."""
+    if v is None or isinstance(t, str) or t[0] == 'decimal':
+        return v
+    if t[0] == 'array':
+        return [None] + [null_first(t[1], x) for x in v]
+    if t[0] == 'map':
+        return {k: null_first(t[2], x) for k, x in v.items()}
+    return T.create_row(v.__fields__, [null_first(f[1], x) for f, x in zip(t[1], tuple(v))])
+
+
 def erase(rng, t, p=0.3):
     """A tree below t in the order 'NullType matches anything' (what inference yields when values are missing)."""
     if rng.random() < p:
@@ -866,6 +877,8 @@ def rows_cases(rng, t, quick):
         cases.append(('create', enc_rows(rows), 'full', t))
         if rng.random() < 0.5:
             cases.append(('infer', enc_rows(rows), 'full'))
+        if has_leaf(t, 'array') or any(tname(x) == 'array' for _, x, _, _, _ in positions(t, full, False, respect=False)):
+            cases.append(('create', enc_rows([null_first(t, full)]), 'full', t))
         more = [full] + [gen_value(rng, t, False, 0.3, 0, respect=False) for _ in range(rng.randint(1, 3))]
         cases.append(('create', enc_rows(more), 'full', t))
         sparse = [gen_value(rng, t, False, 0.35, 0, respect=False) for _ in range(rng.randint(1, 4))]
